@@ -10,7 +10,7 @@ CFG = {
     'C02': dict(focus='slice', enforce={'val'}, prop='C02', depths=[1, 1, 2],
                 n=(800, 10000)),
     'C03': dict(focus='apply', enforce={'val'}, prop='C03', depths=[1, 1, 2],
-                n=(700, 8000)),
+                n=(450, 8000)),
     'C04': dict(focus='stack', enforce={'val'}, prop='C04', depths=[1, 2, 3],
                 n=(600, 6000)),
     'C06': dict(focus=None, enforce={'val'}, prop='C06', depths=[1, 1, 2],
@@ -120,7 +120,7 @@ def multidim_applies(rnd, tier):
                                   'args': {'funcs': fs}})
                     progs.append({'templates': [t], 'steps': steps})
     if tier == 'quick':
-        progs = rnd.sample(progs, min(len(progs), 160))
+        progs = rnd.sample(progs, min(len(progs), 130))
     return progs
 
 
@@ -129,6 +129,8 @@ def run(prop, tier, extra=None):
     out = Outcome(prop, tier)
     rnd = random.Random(seed() * 7919 + int(prop[1:]))
     n = c['n'][0 if tier == 'quick' else 1]
+    import suite
+    rec_wait = suite.record_async(tier)   # the test suite runs meanwhile
     progs = []
     for i in range(n):
         focus = c['focus']
@@ -150,8 +152,7 @@ def run(prop, tier, extra=None):
     cd.run_programs(out, mcp + progs, c['enforce'], prop, prop=c['prop'])
     # code -> spec on the repository's own tests (DESIGN.md 4.5): the calls
     # its tests make, validated for this property's clauses
-    import suite
-    suite.run_suite(out, tier, c['enforce'], c['prop'])
+    suite.run_suite(out, tier, c['enforce'], c['prop'], recorded=rec_wait())
     out.cov['rule'] = ('seeded random programs over templates T1-T5 (depth %s,'
                        ' focus %s); a case is non-trivial when at least one '
                        'call returned a new file; distinct = template + '
